@@ -107,6 +107,33 @@ def build_H(ctx, shape, cls=None, fresh=True, attrs=False, str_labels=False, tag
     return H, nl, el, c
 
 
+def build_H_warm(ctx, shape, warm, **kw):
+    """The same Hypergraph state as build_H, reached through a history: the object
+    first has the COMPLEMENTARY incidence (same nodes, same edge ids), `warm(H)` runs
+    the read-only functions under test on it once, and the incidence is then morphed
+    into `shape` through the public API (node and edge counts never change).  A
+    result cached per object / per size from the first call is thereby exposed."""
+    import warnings
+
+    N, M, edges = shape
+    s0 = (N, M, tuple(tuple(sorted(set(range(N)) - set(e))) for e in edges))
+    H, nl, el, c = build_H(ctx, s0, **kw)
+    with warnings.catch_warnings():
+        warnings.simplefilter("ignore")
+        try:
+            warm(H)
+        except Exception:
+            pass
+        for j in range(M):
+            for i in range(N):
+                want, have = i in edges[j], i in s0[2][j]
+                if want and not have:
+                    H.add_node_to_edge(el[j], nl[i])
+                elif have and not want:
+                    H.remove_node_from_edge(el[j], nl[i], remove_empty=False)
+    return H, nl, el, c
+
+
 def build_D(ctx, shape, fresh=True, attrs=False, str_labels=False, tag=""):
     N, M, edges = shape
     nl, el = _labels(ctx, shape, str_labels, tag)
